@@ -131,15 +131,23 @@ def below(name, hi):
     return v
 
 
-def symbols(n, par, ordered):
+FIXED_SNS = [7, 3, 9, 1, 5]
+
+
+def symbols(n, par, ordered, fixed_sns=False):
     """symbolic contents of the n nodes.  Serial numbers pairwise different (parameter collections hand them out from a
-    counter); a circle's inner diameter below its outer one.  ordered=True: every child sits at a location above its
-    previous sibling's and (components) has a larger outer diameter - i.e. the child lists are in the order in which
+    counter) - symbolic, or with fixed_sns the concrete numbers 7, 3, 9, 1, 5 (the 5-node lemmas: the dictionary keyed
+    by symbolic serial numbers is what makes them slow; the layout code only stores them and uses them as keys); a
+    circle's inner diameter below its outer one.  ordered=True: every child sits at a location above its previous
+    sibling's and (components) has a larger outer diameter - i.e. the child lists are in the order in which
     Composite.__lt__ / Component.__lt__ sort; ordered=False: locations and diameters of siblings are unrelated."""
-    sns = [sym_int("sn%d" % m) for m in range(n)]
-    for m in range(n):
-        for q in range(m):
-            assume(sns[m] != sns[q])
+    if fixed_sns:
+        sns = FIXED_SNS[:n]
+    else:
+        sns = [sym_int("sn%d" % m) for m in range(n)]
+        for m in range(n):
+            for q in range(m):
+                assume(sns[m] != sns[q])
     locs, temps = [], []
     for m in range(n):
         prev = [x for x in kids(n, par, par[m]) if x < m] if m > 0 else []
@@ -167,11 +175,53 @@ def same_seq(xs, ys):
     return True
 
 
-def check_layout_in_child_order(n, par, tmask, ordered):
-    """the layout of the tree must be the pre-order walk IN CHILD ORDER.  `ordered`: the children of every node sit at
-    strictly increasing locations (hypothesis of the first two lemmas; not of the finding lemma)"""
+def both(a, b):
+    """conjunction of two already evaluated conditions (one obligation per topic instead of one per node)"""
+    return a and b
+
+
+def row_is(lay, sn, q):
+    """Layout[sn] is the q-th entry of every list"""
+    row = lay[sn]
+    c1 = len(row) == 9 and row[0] == lay.type[q] and row[1] == lay.name[q] and row[5] == lay.locationType[q] and row[8] == lay.material[q]
+    c2 = row[2] == lay.serialNum[q]
+    c3 = row[3] == lay.indexInData[q]
+    c4 = row[4] == lay.numChildren[q]
+    c5 = same(row[6], lay.location[q])
+    c6 = same(row[7], lay.temperatures[q])
+    return both(both(both(c1, c2), both(c3, c4)), both(c5, c6))
+
+
+def own_entries_ok(lay, q, j, c, n, par, sns, locs, temps):
+    """the entries of object j, found at position q: class, name, serial number, number of children, location, grid
+    index, temperatures, material"""
+    c1 = lay.type[q] == c.__name__ and lay.name[q] == "n%d" % j and lay.gridIndex[q] is None
+    c2 = lay.serialNum[q] == sns[j]
+    c3 = lay.numChildren[q] == len(kids(n, par, j))
+    if j == 0:
+        loc = tuple(lay.location[q])
+        c4 = lay.locationType[q] == layout.LOC_COORD and len(loc) == 3
+        c5 = both(loc[0] == 0.0, both(loc[1] == 0.0, loc[2] == 0.0))
+    else:
+        loc = tuple(lay.location[q])
+        c4 = lay.locationType[q] == layout.LOC_INDEX and len(loc) == 3
+        c5 = both(loc[0] == locs[j], both(loc[1] == 0, loc[2] == 0))
+    t = lay.temperatures[q]
+    if c is Circle:
+        c6 = lay.material[q] == "Mat" and len(t) == 2
+        c7 = both(t[0] == temps[j][0], t[1] == temps[j][1])
+    else:
+        c6 = lay.material[q] == "" and len(t) == 2
+        c7 = both(t[0] == -900, t[1] == -900)
+    return both(both(both(c1, c2), both(c3, c4)), both(c5, both(c6, c7)))
+
+
+def check_layout_in_child_order(n, par, tmask, ordered, fixed_sns=False):
+    """the layout of the tree must be the pre-order walk IN CHILD ORDER.  `ordered`: the children of every node are
+    already in the order of Composite.__lt__ / Component.__lt__ (hypothesis of the lemmas of this file; not of the
+    finding lemma in contracts/pending)"""
     bits = bits_of(n, tmask)
-    sns, locs, temps = symbols(n, par, ordered)
+    sns, locs, temps = symbols(n, par, ordered, fixed_sns)
     nodes = mk_tree(n, par, bits, sns, locs, temps)
     lay = Layout((layout.DB_MAJOR, layout.DB_MINOR), comp=nodes[0])
     pre = preorder(n, par, 0)
@@ -179,25 +229,19 @@ def check_layout_in_child_order(n, par, tmask, ordered):
     for lst in (lay.type, lay.name, lay.serialNum, lay.indexInData, lay.numChildren, lay.locationType, lay.location,
                 lay.gridIndex, lay.temperatures, lay.material):
         assert len(lst) == n, "one entry per object in every layout list"
+    order_ok, own_ok, index_ok = True, True, True
     for q in range(n):
         j = pre[q]
         c = cls_of(n, par, j, bits)
-        assert lay.serialNum[q] == sns[j], "serial numbers in pre-order, children in child order"
-        assert lay.name[q] == "n%d" % j, "names in pre-order"
-        assert lay.type[q] == c.__name__, "class names in pre-order"
-        assert lay.numChildren[q] == len(kids(n, par, j)), "number of direct children"
+        is_j = lay.serialNum[q] == sns[j]
+        order_ok = both(order_ok, is_j)
+        own_ok = both(own_ok, own_entries_ok(lay, q, j, c, n, par, sns, locs, temps))
         same_type_before = [r for r in range(q) if cls_of(n, par, pre[r], bits) is c]
-        assert lay.indexInData[q] == len(same_type_before), "indexInData counts the objects of the same class laid out before"
-        assert lay.gridIndex[q] is None, "an object without grid has no grid index"
-        if j == 0:
-            assert lay.locationType[q] == layout.LOC_COORD and tuple(lay.location[q]) == (0.0, 0.0, 0.0)
-        else:
-            assert lay.locationType[q] == layout.LOC_INDEX and tuple(lay.location[q]) == (locs[j], 0, 0), "own location"
-        if c is Circle:
-            assert lay.temperatures[q] == (temps[j][0], temps[j][1]), "input and hot temperature of a component"
-            assert lay.material[q] == "Mat", "class name of the material"
-        else:
-            assert lay.temperatures[q] == (-900, -900) and lay.material[q] == "", "objects without material: the documented filler"
+        is_k = lay.indexInData[q] == len(same_type_before)
+        index_ok = both(index_ok, is_k)
+    assert order_ok, "serial numbers in pre-order, children in child order"
+    assert own_ok, "every object's own entries (class, name, children, location, temperatures, material) at its pre-order position"
+    assert index_ok, "indexInData counts the objects of the same class laid out before"
     # grouping by class: the objects of each class in layout order (what Database._writeParams iterates)
     for c in (Composite, Assembly, Circle):
         want = [nodes[j] for j in pre if cls_of(n, par, j, bits) is c]
@@ -206,21 +250,18 @@ def check_layout_in_child_order(n, par, tmask, ordered):
     assert len([c for c in lay.groupedComps]) == len(set(cls_of(n, par, j, bits).__name__ for j in range(n)))
     # the way back: parents from the flat lists = the real parents (round trip `same tree ... child order`)
     anc = Layout.computeAncestors(lay.serialNum, lay.numChildren)
-    assert len(anc) == n
-    for q in range(n):
-        j = pre[q]
-        if j == 0:
-            assert anc[q] is None, "the root has no parent"
-        else:
-            assert anc[q] is not None and anc[q] == nodes[j].parent.p.serialNum, "the real parent"
+    assert len(anc) == n and anc[0] is None, "the root has no parent"
+    anc_ok = True
+    for q in range(1, n):
+        assert anc[q] is not None
+        is_p = anc[q] == nodes[pre[q]].parent.p.serialNum
+        anc_ok = both(anc_ok, is_p)
+    assert anc_ok, "computeAncestors on the created layout: the real parent of every object"
     # look-up by serial number
+    rows_ok = True
     for q in range(n):
-        j = pre[q]
-        row = lay[sns[j]]
-        assert len(row) == 9
-        assert row[0] == lay.type[q] and row[1] == lay.name[q] and row[2] == sns[j] and row[3] == lay.indexInData[q]
-        assert row[4] == lay.numChildren[q] and row[5] == lay.locationType[q] and tuple(row[6]) == tuple(lay.location[q])
-        assert row[7] == lay.temperatures[q] and row[8] == lay.material[q], "Layout[sn]: that object's row"
+        rows_ok = both(rows_ok, row_is(lay, sns[pre[q]], q))
+    assert rows_ok, "Layout[sn]: that object's row"
 
 
 @lemma(gen={"n": (3, 4), "p2": (0, 1), "p3": (0, 2)}, stubs=STUBS)
